@@ -22,6 +22,7 @@ Val(k, c) == CASE c = "empty" -> <<>>
                [] c = "padded" -> <<SP>> \o DefaultValue(k) \o <<LF>>
                [] c = "other" -> <<120>>
                [] c = "warps" -> <<52, 61, 50>>          \* 4=2
+               [] c = "warps0" -> <<52, 61, 48, 46, 48, 48, 48>>      \* 4=0.000 : a warp list whose only length is zero is still a warp list
                [] c = "stopzero" -> <<52, 61, 48, 46, 48, 48, 48>>     \* 4=0.000 : zero is not negative
                [] c = "none" -> None                                    \* a key-only property
                [] c = "bpm" -> T("bpm") [] c = "bpmneg" -> T("bpmneg") [] c = "stop" -> T("stop") [] c = "stopneg" -> T("stopneg")
